@@ -1,8 +1,10 @@
 //! C09 — audio/video synchronisation. Decided on the tables the real `Mp4Writer::finalize`
 //! hands to the moov builder (recording stand-in), read with the ISO 14496-12 timeline rules of
 //! a track WITHOUT an edit list: DT(0) = 0, DT(i+1) = DT(i) + stts(i), CT(i) = DT(i) + ctts(i).
-//! That the real trak builders emit exactly {tkhd, mdia} (no `edts`) is decided by
-//! `c02_trak_video_1` / `c02_trak_audio_1`, which are registered under C09 as well.
+//! That the real trak builders emit exactly {tkhd, mdia} (no `edts`), that the AUDIO stbl never
+//! carries a ctts (whatever the tables say: CT = DT for audio) and that the video stbl carries
+//! one iff `has_bframes` is decided by `c02_trak_video_1` / `c02_trak_audio_1` /
+//! `c02_stbl_video_2_ctts`, which are registered under C09 as well.
 use crate::fin::*;
 use muxide::api::VideoCodec;
 use muxide::verif_hooks::mp4::verif as m;
@@ -41,9 +43,10 @@ fn sync_body(fast_start: bool, exclude_known: bool) {
     }
     let mc = final_call(&c);
     assert!(mc.video.n == 1 && mc.audio.n == 2 && mc.audio_present);
-    let vct0 = mc.video.cts_offsets[0] as i64;
-    let act0 = mc.audio.cts_offsets[0] as i64;
-    let act1 = mc.audio.durations[0] as i64 + mc.audio.cts_offsets[1] as i64;
+    // video: ctts is written iff has_bframes; audio: never (CT = DT)
+    let vct0 = if mc.video.has_bframes { mc.video.cts_offsets[0] as i64 } else { 0 };
+    let act0 = 0i64;
+    let act1 = mc.audio.durations[0] as i64;
     assert!(act0 - vct0 == want0, "first audio sample is presented at its submitted offset from the first video frame");
     assert!(act1 - vct0 == want1, "second audio sample is presented at its submitted offset from the first video frame");
     crate::vcover!(v0 > 0, "first video timestamp not zero");
@@ -74,4 +77,67 @@ pub fn c09_sync_fast_v1a2() {
 #[kani::stub(muxide::muxer::mp4::build_moov_box, muxide::verif_hooks::mp4::verif::moov_recording_stub)]
 pub fn c09_w_audio_starts_later() {
     sync_body(false, false);
+}
+
+/// three audio samples (thorough): the relation for every audio sample, by accumulation of stts
+fn sync_body3(fast_start: bool, exclude_known: bool) {
+    let (v0, d0, a0): (u64, u64, u64) = (kani::any(), kani::any(), kani::any());
+    let (g1, g2): (u32, u32) = (kani::any(), kani::any());
+    kani::assume(v0 < (1 << 31) && a0 < (1 << 31) && g1 < (1 << 30) && g2 < (1 << 30));
+    kani::assume(d0 <= v0 && v0 <= a0);
+    if exclude_known {
+        kani::assume(a0 == d0);
+    }
+    let (a1, a2) = (a0 + g1 as u64, a0 + g1 as u64 + g2 as u64);
+    let c = carrier(8);
+    let video = [m::mk_sample(v0, d0, payload(vtag(0), 2), true, None)];
+    let audio = [
+        m::mk_sample(a0, a0, payload(atag(0), 1), false, Some(g1)),
+        m::mk_sample(a1, a1, payload(atag(1), 2), false, Some(g2)),
+        m::mk_sample(a2, a2, payload(atag(2), 1), false, None),
+    ];
+    let mut w = m::writer_with_state::<RecSink, 1, 3>(RecSink::new(), VideoCodec::Vp9, video, Some(audio_track()), audio,
+        Some(d0), None, Some(a2), Some(g2), None, false, 0);
+    let r = w.finalize(&c.track, None, fast_start);
+    assert!(r.is_ok());
+    let want = [a0 as i64 - v0 as i64, a1 as i64 - v0 as i64, a2 as i64 - v0 as i64];
+    if replay_mode() {
+        let p = crate::native_mp4::parse(&m::sink(&w).log).expect("well-formed file");
+        assert!(!p.tracks[0].has_edts && !p.tracks[1].has_edts, "native replay: an edit list is present; this oracle does not interpret it");
+        let vct0 = p.tracks[0].cts().map(|c| c[0]).unwrap_or(0) as i64;
+        let ad = p.tracks[1].durations();
+        let ac = p.tracks[1].cts().unwrap_or(vec![0, 0, 0]);
+        let dt = [0i64, ad[0] as i64, ad[0] as i64 + ad[1] as i64];
+        for i in 0..3 {
+            assert!(dt[i] + ac[i] as i64 - vct0 == want[i], "native replay: an audio sample is not presented at its submitted offset from the first video frame");
+        }
+        core::mem::forget((w, r));
+        return;
+    }
+    let mc = final_call(&c);
+    assert!(mc.video.n == 1 && mc.audio.n == 3 && mc.audio_present);
+    let vct0 = if mc.video.has_bframes { mc.video.cts_offsets[0] as i64 } else { 0 };
+    let dt1 = mc.audio.durations[0] as i64;
+    let dt2 = dt1 + mc.audio.durations[1] as i64;
+    assert!(0 - vct0 == want[0], "audio sample 0 is presented at its submitted offset from the first video frame");
+    assert!(dt1 - vct0 == want[1], "audio sample 1 is presented at its submitted offset from the first video frame");
+    assert!(dt2 - vct0 == want[2], "audio sample 2 is presented at its submitted offset from the first video frame");
+    crate::vcover!(v0 > 0 && g1 != g2, "non-zero start, unequal gaps");
+    core::mem::forget((w, r));
+}
+//@ prop=C09 tier=thorough cost=600 fns="Mp4Writer::finalize,finalize_standard,SampleTables::from_samples" bound="standard layout, 1 video + 3 audio samples, gaps < 2^30" unwind=7 stubs="build_moov_box(recording stand-in)" timeout=2400 mem=24
+#[kani::proof]
+#[kani::unwind(7)]
+#[kani::stub(muxide::invariant_ppt::__assert_invariant_impl, crate::stubs::assert_invariant_stub)]
+#[kani::stub(muxide::muxer::mp4::build_moov_box, muxide::verif_hooks::mp4::verif::moov_recording_stub)]
+pub fn c09_sync_std_v1a3() {
+    sync_body3(false, crate::known::KF_C09_NO_TRACK_START_OFFSET);
+}
+//@ prop=C09 tier=thorough cost=800 fns="Mp4Writer::finalize,finalize_fast_start,SampleTables::from_samples" bound="fast start, 1 video + 3 audio samples, gaps < 2^30" unwind=7 stubs="build_moov_box(recording stand-in)" timeout=2400 mem=24
+#[kani::proof]
+#[kani::unwind(7)]
+#[kani::stub(muxide::invariant_ppt::__assert_invariant_impl, crate::stubs::assert_invariant_stub)]
+#[kani::stub(muxide::muxer::mp4::build_moov_box, muxide::verif_hooks::mp4::verif::moov_recording_stub)]
+pub fn c09_sync_fast_v1a3() {
+    sync_body3(true, crate::known::KF_C09_NO_TRACK_START_OFFSET);
 }
